@@ -18,6 +18,7 @@ func init() {
 func c20(c *Ctx) {
 	p, R := c.Node(), c.R
 	R.Trust("go/types + go/ssa", "sync.Mutex and channel semantics", "gRPC stream Send may block on a slow client")
+	loopVarRule(c, p, "C20.loopvar", pkgSpy)
 	R.Assumption("actual interleavings are not explored; blocking-under-lock is the structural necessary condition for independence")
 	pub := must(p.Method(pkgSpy, "spyServer", "Publish"), "spy.(*spyServer).Publish")
 	subF := must(p.FieldOf(pkgSpy, "spyServer", "subs"), "spyServer.subs")
@@ -86,7 +87,7 @@ func c20(c *Ctx) {
 			}
 			// v may have been decoded in an earlier iteration (cached); then the phi's leaves are nil or that call
 			eachInstr(pub, func(i ssa.Instruction) {
-				if ph, ok := i.(*ssa.Phi); ok && ph.Comment == "v" {
+				if ph, ok := i.(*ssa.Phi); ok && facts.LocalName(ph.Parent(), ph.Comment) == "v" {
 					good := true
 					for _, leaf := range phiLeaves(ph) {
 						if isNilConst(leaf) {
@@ -157,7 +158,7 @@ func c20(c *Ctx) {
 		for _, op := range blockingOps(f, func(name string) bool {
 			return strings.HasSuffix(name, "Server.Send") || strings.HasSuffix(name, "ServerStream.SendMsg") || strings.Contains(name, "SubscribeSignedVAAServer.Send")
 		}) {
-			if !held[op.Instr] {
+			if !held[op.Instr] && !heldAt(p, f, op.Instr, mu, false, 0) {
 				continue
 			}
 			nb++
@@ -179,10 +180,22 @@ func c20(c *Ctx) {
 			continue
 		}
 		na++
-		held := lockState(s.Fn, mu, false)[s.Instr]
+		held := heldAt(p, s.Fn, s.Instr, mu, false, 0)
 		R.Check("C20.lockset", R.Key("C20.lockset", shortFn(s.Fn), "access:subs"), c.sitePos(p, s), "access to spyServer.subs holds subsMu", held, "subsMu not held on every path")
 	}
 	R.Floor("C20.lockset", na, 3)
+	// ---- fresh key: a new subscription never takes the key of a live one
+	nk := 0
+	for _, s := range mapUpdatesOnField(p, subF) {
+		nk++
+		mu := s.Instr.(*ssa.MapUpdate)
+		v := resolveThroughReturns(mu.Key, 3)
+		t := facts.Term(v)
+		ok := strings.HasPrefix(t, "(github.com/google/uuid.UUID).String(github.com/google/uuid.New()") || strings.HasPrefix(t, "github.com/google/uuid.NewString()")
+		R.Check("C20.fresh-key", R.Key("C20.fresh-key", shortFn(s.Fn), "mapupdate:subs"), c.sitePos(p, s), "a subscription is registered under a freshly generated UUID, so it can never replace (and silence) a live subscription", ok,
+			"subscription key = "+t+": a key derived from mutable state (such as the current number of subscriptions) repeats after a removal and overwrites a live subscriber, which then receives nothing")
+	}
+	R.Floor("C20.fresh-key", nk, 1)
 	// removal is deferred in SubscribeSignedVAA
 	subFn := must(p.Method(pkgSpy, "spyServer", "SubscribeSignedVAA"), "SubscribeSignedVAA")
 	okDefer := false
